@@ -127,6 +127,13 @@ func runPlot(t *simrt.Tape, keep bool) simrt.Outcome {
 			n = 250 + t.Choose(500)
 			sizes[len(sizes)-1] = n
 		}
+		// ... or the first, the last and one in the middle of a longer soak: two such gaps in one series
+		soakMid := -1
+		if longSoak && t.Prob(1, 2) {
+			n = 500 + t.Choose(400)
+			sizes[len(sizes)-1] = n
+			soakMid = n/2 + t.Choose(3)
+		}
 		for i := 0; i < n; i++ {
 			gapKind := t.Choose(8)
 			if (soak && t.Prob(1, 2)) || longSoak {
@@ -160,7 +167,7 @@ func runPlot(t *simrt.Tape, keep bool) simrt.Outcome {
 			case 2: // a bad start: the OK series starts late
 				failed = i < errFrom
 			case 4: // the first and the last request only
-				failed = i == 0 || i == n-1
+				failed = i == 0 || i == n-1 || i == soakMid
 			}
 			if failed {
 				res.Code, res.Error = 500, "500 Internal Server Error"
